@@ -48,8 +48,10 @@ pub mod smoke;
 pub mod seq;
 pub mod c01;
 pub mod c02;
+pub mod c03;
+pub mod c04;
 
 pub fn all() -> Vec<&'static CheckDef> {
-    vec![&smoke::DEF, &c01::DEF, &c02::DEF]
+    vec![&smoke::DEF, &c01::DEF, &c02::DEF, &c03::DEF, &c04::DEF]
 }
 pub fn find(id: &str) -> Option<&'static CheckDef> { all().into_iter().find(|d| d.id.eq_ignore_ascii_case(id)) }
